@@ -15,6 +15,7 @@
  *                                     increasing length, NSUBJ-1 = never registered)
  *            S<level>                 aws_logger_set_log_level   (PRE / POST only)
  *            P                        schedule point
+ *            B<count>:<level>:<len>   <count> plain log calls in a row (a burst)
  *   (LOGGER takes an optional third word, iso | rfc: the date format of the standard formatter, and an optional fourth,
  *    wf<n>: the recording writer reports failure for every n-th line it receives)
  *   FMT <total> <level> <len> <shape> [<subject name length>]    direct aws_format_standard_log_line into a buffer of <total> bytes
@@ -226,7 +227,15 @@ static void emit_log(int level, int k, int seq, int len, int shape, int subj) {
 static void do_ops(struct prog *pg) {
     for (int i = 0; i < pg->nops; ++i) {
         const char *op = pg->ops[i];
-        if (op[0] == 'L') {
+        int repeat = 1;
+        if (op[0] == 'B') { /* B<count>:<level>:<len> = that many plain log calls in a row */
+            int level = 0, len = 0;
+            sscanf(op + 1, "%d:%d:%d", &repeat, &level, &len);
+            static __thread char one[24];
+            snprintf(one, sizeof(one), "L%d:%d:0:0", level, len);
+            op = one;
+        }
+        for (int rep = 0; rep < repeat && op[0] == 'L'; ++rep) {
             int level = 0, len = 0, shape = 0, subj = 0;
             sscanf(op + 1, "%d:%d:%d:%d", &level, &len, &shape, &subj);
             subj = subj < 0 || subj >= NSUBJ ? 0 : subj;
@@ -244,6 +253,8 @@ static void do_ops(struct prog *pg) {
             vh_int("k", pg->k);
             vh_int("seq", seq);
             vh_end();
+        }
+        if (op[0] == 'L') {
         } else if (op[0] == 'S') {
             int level = atoi(op + 1);
             int rc = aws_logger_set_log_level(&logger, (enum aws_log_level)level);
